@@ -71,7 +71,7 @@ def run(ctx):
         for cfg in configs(ctx):
             args = ["conc", proto, str(max_runs)] + ["%d:%s:%s" % (c, d, ",".join(map(str, ps))) for c, d, ps in cfg]
             rc, out = ctx.vh("vh-match", args, timeout=2400)
-            lines = [json.loads(l) for l in out.splitlines() if l.startswith("{")]
+            lines = [json.loads(l) for l in out.split("\n") if l.startswith("{")]
             if rc != 0 or not lines or "runs" not in lines[-1]:
                 ctx.broken.append("K_conc[%s]: scheduler run failed for %s" % (proto, cfg))
                 ctx.log(out[-600:])
@@ -142,7 +142,7 @@ def run(ctx):
     for proto in ("redis", "http", "http2"):
         rc, out = ctx.vh("vh-match", ["stress", proto, str(iters), "3"], timeout=1800)
         try:
-            o = json.loads(out.strip().splitlines()[-1])
+            o = json.loads(out.strip().split("\n")[-1])
         except Exception:
             ctx.broken.append("stress[%s] failed: %s" % (proto, out[-300:]))
             continue
